@@ -87,6 +87,49 @@ theorem visibility (s : Sys) (g : s.Good) (e : Ev) (hne : e ≠ .commit .ok) :
     | begin | abort | snapTxn | snapEngine => rfl
   rw [he, ← hh]; exact this
 
+/-- **visibility over histories.**  As long as no commit succeeds — whatever calls (failed half-way or complete),
+    begins, aborts, failed/panicking commits and snapshot takings happen, in any number and order — a reader
+    without the transaction keeps seeing exactly the same catalog with exactly the same contents: an aborted,
+    ended or failed-to-commit transaction is never visible, in whole or in part. -/
+theorem visibility_run (s : Sys) (g : s.Good) (es : List Ev) (hne : ∀ e ∈ es, e ≠ .commit .ok) :
+    (s.run es).engine = s.engine ∧ observe (s.run es).heap (s.run es).engine = observe s.heap s.engine := by
+  induction es generalizing s with
+  | nil => exact ⟨rfl, rfl⟩
+  | cons e es ih =>
+    have h1 := visibility s g e (hne e (List.mem_cons_self ..))
+    have h2 := ih (s.step e) (g.step e) (fun x hx => hne x (List.mem_cons_of_mem _ hx))
+    simp only [Sys.run]
+    exact ⟨h2.1.trans h1.1, h2.2.trans h1.2⟩
+
+/-- a successful commit of a dirty transaction publishes the transaction's catalog as it is at that moment:
+    all of the transaction's writes become visible together -/
+theorem commit_publishes (s : Sys) (hd : s.txn.dirty = true) :
+    (s.step (.commit .ok)).engine = s.txn.catalog ∧
+    observe (s.step (.commit .ok)).heap (s.step (.commit .ok)).engine = observe s.heap s.txn.catalog := by
+  simp [Sys.step, hd]
+
+theorem run_append (s : Sys) (a b : List Ev) : s.run (a ++ b) = (s.run a).run b := by
+  induction a generalizing s with
+  | nil => rfl
+  | cons e a ih => simp only [List.cons_append, Sys.run]; exact ih _
+
+/-- **all_or_nothing.**  In every history, what the other clients see at the end is exactly what the
+    transaction's catalog showed at the moment of the last successful (dirty) commit — every write up to that
+    commit, none of the writes after it (those are unpublished: still open, aborted, or their commit failed). -/
+theorem all_or_nothing (s : Sys) (g : s.Good) (pre post : List Ev)
+    (hd : (s.run pre).txn.dirty = true) (hne : ∀ e ∈ post, e ≠ .commit .ok) :
+    observe (s.run (pre ++ .commit .ok :: post)).heap (s.run (pre ++ .commit .ok :: post)).engine
+      = observe (s.run pre).heap (s.run pre).txn.catalog := by
+  rw [run_append]
+  simp only [Sys.run]
+  have g1 : ((s.run pre).step (.commit .ok)).Good := (g.run pre).step _
+  rw [(visibility_run _ g1 post hne).2]
+  exact (commit_publishes _ hd).2
+
+/-- and if no commit ever succeeded the end state shows the initial contents -/
+theorem nothing_without_commit (s : Sys) (g : s.Good) (es : List Ev) (hne : ∀ e ∈ es, e ≠ .commit .ok) :
+    observe (s.run es).heap (s.run es).engine = observe s.heap s.engine := (visibility_run s g es hne).2
+
 /-- the same store-then-publish discipline in the Engine model of C05 (Model/CommitStore.lean):
     `e.catalog` changes only in `commit .ok` of a dirty transaction, to that transaction's catalog -/
 theorem commit_atomic_store {C : Type} (e : CommitStore.Engine C) (op : CommitStore.Op C) :
@@ -128,5 +171,22 @@ example :
       [some [(0, some ⟨some [], []⟩), (1, some ⟨some [some 7, some 9], [("_id_", some [some 7])]⟩)],
        some [(0, some ⟨some [], []⟩), (1, some ⟨some [some 7], [("_id_", some [some 7])]⟩)]] := by
   decide +kernel
+
+
+open Lungo.Expected in
+/-- `all_or_nothing` at a concrete history: the insert before the commit is published, the insert after it
+    (a failing Update, aborted, then a commit that fails) is not -/
+example :
+    let s0 : Sys := ⟨Lungo.C02.hA, ⟨6, false⟩, 6, []⟩
+    let ins (d : Nat) : Ev := .call "Insert" 1 [("list", [d])] { flags := [false, false, true], iters := [1], muts := [{ newDocs := [], list := some [0, 14] }, ({} : Mut)] }
+    let pre : List Ev := [.begin, .call "Update" 1 [] Lungo.C02.chFail, ins 9]
+    let post : List Ev := [.begin, .call "Update" 1 [] Lungo.C02.chFail, .abort, .commit .fail]
+    (s0.run pre).txn.dirty = true ∧ (∀ e ∈ post, e ≠ .commit .ok) ∧
+    observe (s0.run (pre ++ .commit .ok :: post)).heap (s0.run (pre ++ .commit .ok :: post)).engine
+      = some [(0, some ⟨some [], []⟩), (1, some ⟨some [some 7, some 9], [("_id_", some [some 7])]⟩)] := by
+  refine ⟨by decide +kernel, ?_, by decide +kernel⟩
+  intro e he
+  simp only [List.mem_cons, List.mem_nil_iff, or_false] at he
+  rcases he with rfl | rfl | rfl | rfl <;> simp
 
 end Lungo.C03
